@@ -16,7 +16,8 @@ const STRINGS: &[&str] = &[
 ];
 const NUMBERS: &[&str] = &["0", "1", "42", "-7", "3.14", "1e3", "-0.5", "2.5E-3", "18446744073709551615", "-9223372036854775808", "100"];
 const IDENTS: &[&str] = &["type", "name", "key", "id", "by", "mode", "status", "risk_level", "a", "b1", "_x", "FIND", "where", "Limit", "attributes", "null_", "order"];
-const COMMENTS: &[&str] = &["", " c", " \" unbalanced quote", " ) ] } ( [ {", " // nested // slashes", " FIND WHERE MUTATE", " caf\u{e9} \u{1F980}", " \\", " \\\" \"\"", " {{{{{{{{{{{{{{{{{{{{{{{{{{{{{{{{{{{{{{{{{{{{{{{{{{{{{{{{{{{{{{{{{{{{{{"];
+const COMMENTS: &[&str] = &[" c\r ( [ \" {", "\rPROTOCOL //", " x\u{2028}} TOMBSTONE :other {", " y\u{2029}[[[[ \"", " z\u{85}FIND ( ?q )", " v\u{b}]]]] )", " f\u{c}\" unbalanced",
+    " cr\r[[[[[[[[[[[[[[[[[[[[[[[[[[[[[[[[[[[[[[[[[[[[[[[[[[[[[[[[[[[[[[[[[[[[[[", " \r", "\r// again", " a\u{a0}b\u{3000}LIMIT 1", "", " c", " \" unbalanced quote", " ) ] } ( [ {", " // nested // slashes", " FIND WHERE MUTATE", " caf\u{e9} \u{1F980}", " \\", " \\\" \"\"", " {{{{{{{{{{{{{{{{{{{{{{{{{{{{{{{{{{{{{{{{{{{{{{{{{{{{{{{{{{{{{{{{{{{{{{"];
 
 struct G<'a> {
     r: &'a mut Rng,
@@ -471,7 +472,7 @@ pub fn render_trivia(t: &[Tk], r: &mut Rng, unicode: bool) -> String {
 
 // ---- mutants -------------------------------------------------------------------------------------
 const POOL: &[&str] = &["{", "}", "(", ")", "[", "]", "\"", "\\", "'", "?", "_", ",", "@", "$", ":", ";", "|", "\u{0}", "\u{7f}", "\u{1F980}", "NULL", "TRUE", "FIND", "MUTATE",
-    "WHERE", "//", "/", "/*", "NOT", "!", "-", "&&", "||", "=", "==", "{a:", "[[", "((", ".", "?x.", ":p", "\"unterminated", "\\u12", "1e999", "--9223372036854775808", "\n", "\r", "\u{a0}", "id:", "BELIEF", "#"];
+    "WHERE", "//", "/", "/*", "NOT", "!", "-", "&&", "||", "=", "==", "{a:", "[[", "((", ".", "?x.", ":p", "\"unterminated", "\\u12", "1e999", "--9223372036854775808", "\n", "\r", "\u{a0}", "id:", "BELIEF", "#", "// x\r", "//\u{2028}", "// \u{85}", "//\u{b}(", "//\u{c}\"", "\u{2029}"];
 pub fn mutate(a: &[Tk], b: &[Tk], r: &mut Rng, i: usize) -> String {
     let mut t: Vec<String> = a.iter().map(|k| if k.tight { format!("{}\u{1}", k.s) } else { k.s.clone() }).collect();
     let n_ops = 1 + r.below(3);
@@ -524,9 +525,21 @@ pub const ATOMS: &[(&str, &str)] = &[
     ("ADD(", ""), ("[[", ""), ("\"", ""), ("\\", ""), ("/", ""), ("//", ""), ("?a.", ""), ("x ", ""), ("(", ")"), ("[", "]"), ("{a:", "}"), ("{", "}"), ("NOT {", "}"),
     ("(?a,\"p\",", ")"), ("ADD(", ",1)"), ("-(", ")"), ("!(", ")"), ("[{a:", "}]"), ("\"a\"|", ""), ("id:", ""), ("?x ", ""), (", ", ""), ("1 ", ""), ("\"s\" ", ""),
 ];
-pub fn stress(r: &mut Rng, _i: usize) -> String {
+pub fn stress(r: &mut Rng, i: usize) -> String {
     let seed: Vec<&str> = r.pick(SEEDS).split(' ').collect();
     let at = r.below(seed.len() as u64 + 1) as usize;
+    if i % 4 == 3 {
+        // the whole insertion is ONE line comment: a look-alike of a line break, then openers / tokens, then LF
+        let sep = *r.pick(&['\r', '\u{2028}', '\u{2029}', '\u{85}', '\u{b}', '\u{c}', '\u{a0}', '\t']);
+        let fill = *r.pick(&["[", "(", "{a:", "NOT {", "!", "\"", "ADD(", "} PURGE :x CONFIRM \"PURGE\" {"]);
+        let n = (*r.pick(&[1usize, 3, 65, 3000, 60000])).min(240_000 / fill.len());
+        let mut s = String::new();
+        for (j, w) in seed.iter().enumerate() {
+            if j == at { s.push_str("// c"); s.push(sep); for _ in 0..n { s.push_str(fill); } s.push('\n'); }
+            s.push_str(w); s.push(' ');
+        }
+        return s;
+    }
     let (open, close) = *r.pick(ATOMS);
     let cap = 250_000 / (open.len() + close.len()).max(1);
     let n = (*r.pick(&[63usize, 64, 65, 66, 300, 3000, 30000, 120000])).min(cap);
@@ -573,6 +586,11 @@ pub fn budget_case(r: &mut Rng, i: usize) -> String {
         22 => format!("/\"/{}\"", "[".repeat(maxd + 1)),
         23 => format!("\"a\"/{}", "/[".repeat(maxd + 1)),
         24 => format!("{}", "[]".repeat(1000)),
+        26..=31 => { let sep = ['\r', '\u{2028}', '\u{2029}', '\u{85}', '\u{b}', '\u{c}'][i - 26]; format!("// see below{sep}{}{}", "[".repeat(maxd + 1), "]".repeat(maxd + 1)) }
+        32..=37 => { let sep = ['\r', '\u{2028}', '\u{2029}', '\u{85}', '\u{b}', '\u{c}'][i - 32]; format!("DESCRIBE // which{sep}PROTOCOL //\n PRIMER") }
+        38 => format!("// crlf ends it\r\n{}", "[".repeat(maxd + 1)),
+        39..=44 => { let sep = ['\r', '\u{2028}', '\u{2029}', '\u{85}', '\u{b}', '\u{c}'][i - 39]; format!("// c{sep} \" ( {{\n[1, // d{sep}]]]\n 2]") }
+        45 => format!("[1, // c\r{}\n 2]", "[".repeat(30000)),
         25 => format!("{}//{}", "[".repeat(maxd), "[".repeat(10)),
         _ => {
             let alphabet: &[&str] = &["(", "[", "{", ")", "]", "}", "\"", "\\", "/", "\n", "a", " ", "\u{e9}", "\u{1F980}", "//", "[[[[", "((((((((", "{{{{{{{{{{{{{{{{"];
